@@ -166,11 +166,10 @@ class DataSet:
             impedances = flip(impedances)
             if len(mask) > 0:
                 i: int
-                for i in range(0, frequencies.size):
-                    j: int = frequencies.size - 1 - i
-                    flag: bool = mask.get(i, False)
-                    mask[i] = mask.get(j, False)
-                    mask[j] = flag
+                flag: bool
+                mask = {
+                    frequencies.size - 1 - i: flag for i, flag in mask.items()
+                }
 
         self.uuid: str = uuid or uuid4().hex
         self._path: str = path
